@@ -86,6 +86,11 @@ func c11history(dir string, groups [][]string, earlyUniverse bool) (string, []st
 			return "", nil, nil, err
 		}
 	}
+	reqSet := map[string]bool{}
+	for _, r := range p.UserRequestedPackages() {
+		reqSet[r] = true
+	}
+	c11lastDigest = commentDigest(u, reqSet)
 	return dumpUniverse(u), p.UserRequestedPackages(), problems, nil
 }
 
@@ -135,7 +140,11 @@ func c11(g *Gen) {
 		}
 		in, _ := chkSub.serialise(2, sub)
 		dir := filepath.Join(work, fmt.Sprintf("c11m%d", i))
-		writeModule(dir, prog)
+		progC := append([]GenPkg{}, prog...)
+		for k := range progC {
+			progC[k].Src = pgWithComments(progC[k].Src) // a doc comment above every declaration, field and method
+		}
+		writeModule(dir, progC)
 		os.Chdir(dir) // LoadPackagesTo has no config: it loads relative to the working directory
 		var reqL []string
 		for p := range req {
@@ -152,6 +161,7 @@ func c11(g *Gen) {
 			cls = append(cls, "dependency-not-requested")
 		}
 		first := ""
+		firstDigest := ""
 		var problems []string
 		for h := 0; h < nh; h++ {
 			order := append([]string{}, reqL...)
@@ -178,6 +188,14 @@ func c11(g *Gen) {
 			problems = append(problems, probs...)
 			if !reflect.DeepEqual(inputs, reqL) {
 				problems = append(problems, fmt.Sprintf("UserRequestedPackages %v, requested %v", inputs, reqL))
+			}
+			if h == 0 {
+				firstDigest = c11lastDigest
+				if !strings.Contains(firstDigest, "doc ") {
+					problems = append(problems, "no comment at all was delivered for the requested packages")
+				}
+			} else if c11lastDigest != firstDigest {
+				problems = append(problems, fmt.Sprintf("history %v (early universe %v) delivers other comments for the requested packages than the first history", groups, early))
 			}
 			if h == 0 {
 				first = dump
